@@ -6,7 +6,7 @@
    the fault engine evaluates the property on the real store. *)
 From Coq Require Import List NArith Bool.
 From Feox Require Import Model.Device Proofs.CrashProofs.
-From Feox Require Model.FreeSpace Proofs.FreeSpaceProofs Model.FailPath Proofs.FailPathProofs.
+From Feox Require Model.FreeSpace Proofs.FreeSpaceProofs Model.FailPath Proofs.FailPathProofs Model.Gate Proofs.GateProofs.
 Import ListNotations.
 Local Open Scope N_scope.
 
@@ -187,7 +187,13 @@ Theorem flush_with_deletes_is_honest :
    (FailPath.f_durable (FailPath.r_core rs') = FailPath.f_durable (FailPath.r_core rs) /\
       map FailPath.pe_id (FailPath.f_queue (FailPath.r_core rs')) = map FailPath.pe_id (FailPath.f_queue (FailPath.r_core rs)))) /\
   (FailPath.r_pending rs' = FailPath.r_pending rs \/ FailPath.r_pending rs' = []) /\
-  (FailPath.f_poison (FailPath.r_core rs) = true -> FailPath.f_poison (FailPath.r_core rs') = true /\ r <> FailPath.ROk).
+  (FailPath.f_poison (FailPath.r_core rs) = true -> FailPath.f_poison (FailPath.r_core rs') = true /\ r <> FailPath.ROk)
+(* ---- the retirement gate (Model/Gate.v = Record::successor_is_durable_or_deleted): the extent
+   of a superseded generation is retired only when this answers true ---- *)
+
+(* a positive answer means that the generation was deleted outright, or that its successor chain
+   reaches a generation that is on the device or ends in a deleted one -- so the newest durable
+   generation of a key is never the one that is retired; the memo bits stay sound *).
 Proof. exact FailPathProofs.flush_with_deletes_is_honest. Qed.
 Check flush_with_deletes_is_honest :
   forall fault d f cs,
@@ -200,8 +206,62 @@ Check flush_with_deletes_is_honest :
    (FailPath.f_durable (FailPath.r_core rs') = FailPath.f_durable (FailPath.r_core rs) /\
       map FailPath.pe_id (FailPath.f_queue (FailPath.r_core rs')) = map FailPath.pe_id (FailPath.f_queue (FailPath.r_core rs)))) /\
   (FailPath.r_pending rs' = FailPath.r_pending rs \/ FailPath.r_pending rs' = []) /\
-  (FailPath.f_poison (FailPath.r_core rs) = true -> FailPath.f_poison (FailPath.r_core rs') = true /\ r <> FailPath.ROk).
+  (FailPath.f_poison (FailPath.r_core rs) = true -> FailPath.f_poison (FailPath.r_core rs') = true /\ r <> FailPath.ROk)
+(* ---- the retirement gate (Model/Gate.v = Record::successor_is_durable_or_deleted): the extent
+   of a superseded generation is retired only when this answers true ---- *)
+
+(* a positive answer means that the generation was deleted outright, or that its successor chain
+   reaches a generation that is on the device or ends in a deleted one -- so the newest durable
+   generation of a key is never the one that is retired; the memo bits stay sound *).
 Print Assumptions flush_with_deletes_is_honest.
+
+Theorem gate_true_means_superseded_durably_or_deleted :
+  forall l x l',
+  GateProofs.memo_ok l -> Gate.gate l x = (true, l') ->
+  GateProofs.memo_ok l' /\
+  forall me, nth_error l x = Some me -> Gate.gn_succ me = None \/ exists s, Gate.gn_succ me = Some s /\ GateProofs.good l s.
+Proof. exact GateProofs.gate_true_means_superseded_durably_or_deleted. Qed.
+Check gate_true_means_superseded_durably_or_deleted :
+  forall l x l',
+  GateProofs.memo_ok l -> Gate.gate l x = (true, l') ->
+  GateProofs.memo_ok l' /\
+  forall me, nth_error l x = Some me -> Gate.gn_succ me = None \/ exists s, Gate.gn_succ me = Some s /\ GateProofs.good l s.
+Print Assumptions gate_true_means_superseded_durably_or_deleted.
+
+Theorem good_chain_reaches_durable_or_deleted :
+  forall l c, GateProofs.good l c ->
+  exists d n, GateProofs.reach l c d /\ nth_error l d = Some n /\ (0 < Gate.gn_sector n \/ (Gate.gn_succ n = None /\ Gate.gn_ref n = 0))
+
+(* it refuses only when the chain ends in a live generation that is not on the device yet *).
+Proof. exact GateProofs.good_unfolds. Qed.
+Check good_chain_reaches_durable_or_deleted :
+  forall l c, GateProofs.good l c ->
+  exists d n, GateProofs.reach l c d /\ nth_error l d = Some n /\ (0 < Gate.gn_sector n \/ (Gate.gn_succ n = None /\ Gate.gn_ref n = 0))
+
+(* it refuses only when the chain ends in a live generation that is not on the device yet *).
+Print Assumptions good_chain_reaches_durable_or_deleted.
+
+Theorem gate_false_means_successor_not_durable :
+  forall l x l',
+  GateProofs.forward l -> Gate.gate l x = (false, l') ->
+  l' = l /\ exists me s, nth_error l x = Some me /\ Gate.gn_succ me = Some s /\ ~ GateProofs.good l s
+
+(* publishing, deleting and superseding generations never invalidate a memo bit *).
+Proof. exact GateProofs.gate_false_means_successor_not_durable. Qed.
+Check gate_false_means_successor_not_durable :
+  forall l x l',
+  GateProofs.forward l -> Gate.gate l x = (false, l') ->
+  l' = l /\ exists me s, nth_error l x = Some me /\ Gate.gn_succ me = Some s /\ ~ GateProofs.good l s
+
+(* publishing, deleting and superseding generations never invalidate a memo bit *).
+Print Assumptions gate_false_means_successor_not_durable.
+
+Theorem gate_memo_stays_sound :
+  forall l e, GateProofs.memo_ok l -> GateProofs.memo_ok (GateProofs.gstep l e).
+Proof. exact GateProofs.memo_stays_sound. Qed.
+Check gate_memo_stays_sound :
+  forall l e, GateProofs.memo_ok l -> GateProofs.memo_ok (GateProofs.gstep l e).
+Print Assumptions gate_memo_stays_sound.
 (* non-vacuity of the failure-handling theorems: three inserts on a 64-block device; the record
    write fails three times (calls 2, 3, 4: the first pwrite of each attempt), the scrub goes through
    and the second flush publishes everything; with call 5 failing too (the scrub's intent write) the
@@ -237,3 +297,13 @@ Example reclaim_and_retry_on_a_full_device :
   | FreeSpace.FErr _ => False
   end.
 Proof. vm_compute. repeat split. Qed.
+
+(* non-vacuity of the gate theorems: A (durable) -> B (superseded in memory, never written) -> C
+   (live, not durable): the gate refuses to retire A; once C is on the device it agrees and marks
+   A and B *)
+Example gate_waits_for_the_end_of_the_chain :
+  let chain := [Gate.mkgn 16 0 (Some 1%nat) false; Gate.mkgn 0 0 (Some 2%nat) false; Gate.mkgn 0 1 None false] in
+  fst (Gate.gate chain 0) = false /\
+  Gate.gate (GateProofs.gstep chain (GateProofs.GPublish 2 40)) 0 =
+    (true, [Gate.mkgn 16 0 (Some 1%nat) true; Gate.mkgn 0 0 (Some 2%nat) true; Gate.mkgn 40 1 None false]).
+Proof. vm_compute. split; reflexivity. Qed.
